@@ -9,6 +9,7 @@ use crate::core::*;
 use crate::model::*;
 use crate::subj::{self, close};
 
+#[derive(Clone, Copy)]
 pub struct C01;
 
 fn sumv(v: &[f32]) -> f64 {
